@@ -38,8 +38,10 @@ pub enum Fault {
     ToctouId,
     ToctouLen,
     IdHighBits,
+    /// a completion whose length exceeds the buffer (rejected by the driver), then the same id again
+    OversizeThenRepeat,
 }
-pub const FAULTS: [Fault; 15] = [
+pub const FAULTS: [Fault; 16] = [
     Fault::IdOutOfRange,
     Fault::IdFree,
     Fault::IdOtherOutstanding,
@@ -55,6 +57,7 @@ pub const FAULTS: [Fault; 15] = [
     Fault::ToctouId,
     Fault::ToctouLen,
     Fault::IdHighBits,
+    Fault::OversizeThenRepeat,
 ];
 
 fn ledger_c07(v: &mut Vec<DViol>, desc: &str) {
@@ -147,8 +150,9 @@ fn raw_queue_case(fault: Fault, pos: usize, variant: u64) -> CaseOut {
         Fault::IdxJump65535 => (first as u32, wcap, 65535),
         Fault::ToctouId | Fault::ToctouLen => (first as u32, wcap, 1),
         Fault::IdHighBits => (first as u32 | 0x7fff_0000, wcap, 1),
+        Fault::OversizeThenRepeat => (first as u32, wcap + 100, 1),
     };
-    if fault == Fault::IdDuplicate {
+    if fault == Fault::IdDuplicate || fault == Fault::OversizeThenRepeat {
         let _ = dev.hostile_complete(id, len, 1);
     }
     let _ = dev.hostile_complete(id, len, jump);
@@ -262,9 +266,20 @@ fn owning_case(fault: Fault, pos: usize, variant: u64) -> CaseOut {
         Fault::IdxJump65535 => (first, 4, 65535),
         Fault::ToctouId | Fault::ToctouLen => (first, 4, 1),
         Fault::IdHighBits => (first | 0x0001_0000, 4, 1),
+        Fault::OversizeThenRepeat => (first, 4, 1),
     };
     if fault == Fault::IdDuplicate || fault == Fault::IdFree {
         let _ = dev.hostile_complete(id, len, 1);
+    }
+    if fault == Fault::OversizeThenRepeat {
+        // the oversized completion is consumed (and rejected) first, then the device names the same buffer again
+        let _ = dev.hostile_complete(first, B as u32 + 1, 1);
+        let r = catch_unwind(AssertUnwindSafe(|| oq.poll(&mut t, |b: &[u8]| Ok(Some(b.len())))));
+        match r {
+            Err(_) => out.panics += 1,
+            Ok(Err(_)) => out.errors += 1,
+            Ok(Ok(_)) => out.oks += 1,
+        }
     }
     let _ = dev.hostile_complete(id, len, jump);
     if matches!(fault, Fault::ToctouId | Fault::ToctouLen) {
@@ -313,6 +328,235 @@ fn owning_case(fault: Fault, pos: usize, variant: u64) -> CaseOut {
     drop(t);
     ledger_c07(&mut out.viol, &desc);
     out
+}
+
+
+// ------------------------------------------------------------------------------------------
+// (A') multi-fault random histories: the device draws a hostile action at every step
+
+fn hostile_triple(rng: &mut Rng, n: u32, cap: u32) -> (u32, u32, u16) {
+    let id = match rng.below(8) {
+        0 => n + rng.below(4) as u32,
+        1 => rng.next() as u32,
+        2 => rng.below(n as u64) as u32 | 0x0001_0000 << rng.below(15),
+        _ => rng.below(n as u64) as u32,
+    };
+    let len = match rng.below(8) {
+        0 => 0,
+        1 => cap + 1,
+        2 => 1 << 31,
+        3 => u32::MAX,
+        4 => rng.next() as u32,
+        _ => rng.below(cap as u64 + 1) as u32,
+    };
+    let jump = match rng.below(10) {
+        0 => 0,
+        1 => 2,
+        2 => n as u16,
+        3 => 32768,
+        4 => 65535,
+        5 => rng.next() as u16,
+        _ => 1,
+    };
+    (id, len, jump)
+}
+
+fn fuzz_raw<const N: usize>(seed: u64) -> CaseOut {
+    let mut out = CaseOut { viol: vec![], consumed: false, panics: 0, errors: 0, oks: 0, sample: None };
+    let mut rng = Rng::derive(seed, 0xf077, N as u64, 1);
+    mem::reset(HalMode::Bounce);
+    mem::with(|l| l.allow_illegal_dev_writes = true);
+    hooks::clear();
+    let (indirect, event_idx) = (rng.bool(), rng.bool());
+    let st = ModelState::new(DeviceType::Block, 0);
+    st.borrow_mut().driver_features = Some(if indirect { devsim::F_INDIRECT } else { 0 } | if event_idx { devsim::F_EVENT_IDX } else { 0 });
+    let mut t = ModelTransport::new(&st);
+    let mut q = VirtQueue::<LedgerHal, N>::new(&mut t, 0, indirect, event_idx, false).expect("queue");
+    let mut dev = QSrv::new(&st.borrow(), 0, Policy::Eager).unwrap();
+    let reg = *st.borrow().queues.get(&0).unwrap();
+    let desc = format!("[fuzz raw VirtQueue<{}> indirect={} event_idx={} seed {:#x}]", N, indirect, event_idx, seed);
+    // outstanding: token -> (readable buffers, writable buffers)
+    let mut outst: Vec<(u16, Vec<Vec<u8>>, Vec<Vec<u8>>)> = vec![];
+    let steps = rng.range(20, 120);
+    let mut dead = false;
+    for _ in 0..steps {
+        if dead {
+            break;
+        }
+        match rng.below(10) {
+            0..=2 => {
+                let ni = rng.below(3) as usize;
+                let no = rng.range(if ni == 0 { 1 } else { 0 }, 2) as usize;
+                let ins: Vec<Vec<u8>> = (0..ni).map(|_| vec![0x11u8; rng.range(1, 24) as usize]).collect();
+                let mut outs: Vec<Vec<u8>> = (0..no).map(|_| vec![0u8; rng.range(1, 24) as usize]).collect();
+                let r = catch_unwind(AssertUnwindSafe(|| {
+                    let i: Vec<&[u8]> = ins.iter().map(|v| &v[..]).collect();
+                    let mut o: Vec<&mut [u8]> = outs.iter_mut().map(|v| &mut v[..]).collect();
+                    // SAFETY: the vectors are moved into `outst` (heap storage does not move) and stay untouched until popped or the queue is dropped.
+                    unsafe { q.add(&i, &mut o) }
+                }));
+                match r {
+                    Ok(Ok(tok)) => {
+                        out.oks += 1;
+                        outst.push((tok, ins, outs));
+                    }
+                    Ok(Err(_)) => out.errors += 1,
+                    Err(_) => {
+                        out.panics += 1;
+                        // the buffers may be referenced by a half-built chain: keep them alive
+                        outst.push((u16::MAX, ins, outs));
+                        dead = true;
+                    }
+                }
+            }
+            3 => {
+                let _ = dev.fetch_some(2 * N.max(4));
+                if !dev.held.is_empty() && rng.chance(2, 3) {
+                    let i = rng.below(dev.held.len() as u64) as usize;
+                    let _ = dev.complete_at(i, &[9; 6], None);
+                }
+            }
+            4 | 5 => {
+                let (id, len, jump) = hostile_triple(&mut rng, N as u32, 48);
+                let _ = dev.hostile_complete(id, len, jump);
+                out.consumed = true;
+            }
+            6 => {
+                // scribble over driver-owned queue memory (descriptor table, available ring)
+                let mut junk = vec![0u8; rng.range(1, 32) as usize];
+                rng.fill(&mut junk);
+                let (base, span) = if rng.bool() { (reg.desc, 16 * N as u64) } else { (reg.driver, 6 + 2 * N as u64) };
+                let off = rng.below(span);
+                let n = junk.len().min((span - off) as usize);
+                let _ = mem::with(|l| l.dev_write(base + off, &junk[..n]));
+                out.consumed = true;
+            }
+            _ => {
+                // the driver polls: as drivers do, it pops the token peek_used() names if that is one of its own,
+                // otherwise (or sometimes anyway) an arbitrary outstanding one
+                if outst.is_empty() {
+                    continue;
+                }
+                let r = catch_unwind(AssertUnwindSafe(|| {
+                    let pk = q.peek_used();
+                    let i = match pk.and_then(|t| outst.iter().position(|o| o.0 == t)) {
+                        Some(i) if !rng.chance(1, 6) => i,
+                        _ => rng.below(outst.len() as u64) as usize,
+                    };
+                    let (tok, ins, outs) = &mut outst[i];
+                    let iv: Vec<&[u8]> = ins.iter().map(|v| &v[..]).collect();
+                    let mut ov: Vec<&mut [u8]> = outs.iter_mut().map(|v| &mut v[..]).collect();
+                    // SAFETY: same buffers as added under this token.
+                    (i, unsafe { q.pop_used(*tok, &iv, &mut ov) })
+                }));
+                match r {
+                    Ok((i, Ok(_))) => {
+                        out.oks += 1;
+                        outst.remove(i);
+                    }
+                    Ok((_, Err(_))) => out.errors += 1,
+                    Err(_) => {
+                        out.panics += 1;
+                        dead = true;
+                    }
+                }
+                let _ = catch_unwind(AssertUnwindSafe(|| (q.can_pop(), q.available_desc(), q.should_notify())));
+            }
+        }
+    }
+    let r = catch_unwind(AssertUnwindSafe(move || drop(q)));
+    if r.is_err() {
+        out.panics += 1;
+    }
+    drop(t);
+    drop(outst);
+    ledger_c07(&mut out.viol, &desc);
+    out
+}
+
+fn fuzz_owning<const S: usize, const B: usize>(seed: u64) -> CaseOut {
+    let mut out = CaseOut { viol: vec![], consumed: false, panics: 0, errors: 0, oks: 0, sample: None };
+    let mut rng = Rng::derive(seed, 0xf078, S as u64, B as u64);
+    mem::reset(HalMode::Bounce);
+    mem::with(|l| l.allow_illegal_dev_writes = true);
+    hooks::clear();
+    let (indirect, event_idx) = (rng.bool(), rng.bool());
+    let st = ModelState::new(DeviceType::Input, 0);
+    st.borrow_mut().driver_features = Some(if indirect { devsim::F_INDIRECT } else { 0 } | if event_idx { devsim::F_EVENT_IDX } else { 0 });
+    let mut t = ModelTransport::new(&st);
+    let q = VirtQueue::<LedgerHal, S>::new(&mut t, 0, indirect, event_idx, false).expect("queue");
+    let mut oq = OwningQueue::<LedgerHal, S, B>::new(q).expect("owning queue");
+    let mut dev = QSrv::new(&st.borrow(), 0, Policy::Eager).unwrap();
+    let reg = *st.borrow().queues.get(&0).unwrap();
+    let desc = format!("[fuzz OwningQueue<{}, {}> indirect={} event_idx={} seed {:#x}]", S, B, indirect, event_idx, seed);
+    let steps = rng.range(20, 120);
+    for _ in 0..steps {
+        match rng.below(8) {
+            0 | 1 => {
+                let _ = dev.fetch_some(2 * S);
+                if !dev.held.is_empty() {
+                    let i = rng.below(dev.held.len() as u64) as usize;
+                    let mut data = vec![0u8; rng.below(B as u64 + 1) as usize];
+                    rng.fill(&mut data);
+                    let _ = dev.complete_at(i, &data, None);
+                }
+            }
+            2 | 3 => {
+                let (id, len, jump) = hostile_triple(&mut rng, S as u32, B as u32);
+                let _ = dev.hostile_complete(id, len, jump);
+                out.consumed = true;
+            }
+            4 => {
+                let mut junk = vec![0u8; rng.range(1, 32) as usize];
+                rng.fill(&mut junk);
+                let (base, span) = if rng.bool() { (reg.desc, 16 * S as u64) } else { (reg.driver, 6 + 2 * S as u64) };
+                let off = rng.below(span);
+                let n = junk.len().min((span - off) as usize);
+                let _ = mem::with(|l| l.dev_write(base + off, &junk[..n]));
+                out.consumed = true;
+            }
+            _ => {
+                let reject = rng.chance(1, 5);
+                let r = catch_unwind(AssertUnwindSafe(|| {
+                    oq.poll(&mut t, |b: &[u8]| if reject { Err(Error::IoError) } else { Ok(Some((b.len(), b.iter().map(|x| *x as u32).sum::<u32>()))) })
+                }));
+                match r {
+                    Err(_) => {
+                        out.panics += 1;
+                        break;
+                    }
+                    Ok(Ok(Some((l, _)))) => {
+                        out.oks += 1;
+                        if l > B {
+                            out.viol.push(DViol { prop: "C07", rule: "slice_exceeds_backing_buffer", detail: format!("OwningQueue handed a {}-byte slice to the handler, buffers are {} bytes {}", l, B, desc) });
+                        }
+                    }
+                    Ok(Ok(None)) => {}
+                    Ok(Err(_)) => out.errors += 1,
+                }
+            }
+        }
+    }
+    let r = catch_unwind(AssertUnwindSafe(move || drop(oq)));
+    if r.is_err() {
+        out.panics += 1;
+    }
+    drop(t);
+    ledger_c07(&mut out.viol, &desc);
+    out
+}
+
+fn fuzz_case(c: u64, seed: u64) -> CaseOut {
+    let s = seed.wrapping_mul(0x9e3779b97f4a7c15) ^ c;
+    match c % 7 {
+        0 => fuzz_raw::<2>(s),
+        1 => fuzz_raw::<4>(s),
+        2 => fuzz_raw::<16>(s),
+        3 => fuzz_raw::<1>(s),
+        4 => fuzz_owning::<2, 8>(s),
+        5 => fuzz_owning::<4, 16>(s),
+        _ => fuzz_owning::<8, 64>(s),
+    }
 }
 
 // ------------------------------------------------------------------------------------------
@@ -794,6 +1038,7 @@ enum Item {
     Owning(Fault, usize, u64),
     Driver(usize, DFault, usize, u64),
     Diff(u64),
+    Fuzz(u64),
 }
 
 fn work(args: &Args) -> Vec<Item> {
@@ -827,9 +1072,13 @@ fn work(args: &Args) -> Vec<Item> {
             }
         }
     }
-    let ndiff = if miri { 8 } else if args.thorough() { 4000 } else { 400 };
+    let ndiff = if miri { 8 } else { args.scaled(if args.thorough() { 4000 } else { 400 }) };
     for c in 0..ndiff {
         w.push(Item::Diff(c));
+    }
+    let nfuzz = if miri { 28 } else { args.scaled(if args.thorough() { 40_000 } else { 4_000 }) };
+    for c in 0..nfuzz {
+        w.push(Item::Fuzz(c));
     }
     w
 }
@@ -843,6 +1092,7 @@ fn run_item(it: Item, seed: u64) -> (CaseOut, String) {
             (driver_case(drivers::ALL[di], f, kinds[ki], v, seed), format!("driver:{}:{:?}:{}:{}", drivers::ALL[di].name(), f, kinds[ki].name(), v))
         }
         Item::Diff(c) => (diff_case(c, seed), format!("diff:{}", c)),
+        Item::Fuzz(c) => (fuzz_case(c, seed), format!("fuzz:{}:{}", ["raw2", "raw4", "raw16", "raw1", "owning2", "owning4", "owning8"][(c % 7) as usize], c)),
     }
 }
 
@@ -890,6 +1140,7 @@ pub fn run(args: &Args, sh: &mut Shard) {
                 Item::Owning(..) => "cases_owning_queue",
                 Item::Driver(..) => "cases_driver_level",
                 Item::Diff(..) => "cases_differential_scribble",
+                Item::Fuzz(..) => "cases_multi_fault_random_history",
             },
             1,
         );
